@@ -8,7 +8,7 @@
  * engine; `--stubs=<dir>` says where they are.
  *
  * One op per case (DESIGN.md Appendix A):
- *     graph <m:dep,dep;m2:...|-> bad=<m,...> list=<m,...> [list=<m,...> ...]
+ *     graph <m:dep,dep;m2:...|-> bad=<m,...> [nohook=<m,...>] list=<m,...> [list=<m,...> ...]
  *  -> status <n|sigN> why=<-|loop:a>b|unloadable:m|other> events <kind:m> ...
  *
  * For every op a child process runs the daemon code, so that LOG_FATAL's _exit(1)
@@ -99,7 +99,7 @@ static void append_buf(char **buf, size_t *len, size_t *cap, const char *p, size
     (*buf)[*len] = '\0';
 }
 
-static void run_graph(char *gspec, char **bad, int nbad, char ***lists, int *list_n, int nlists)
+static void run_graph(char *gspec, char **bad, int nbad, char **nohook, int nnohook, char ***lists, int *list_n, int nlists)
 {
     char dir[4096], a[4352], b[4352];
     char *names[MAXN * 4];
@@ -139,7 +139,8 @@ static void run_graph(char *gspec, char **bad, int nbad, char ***lists, int *lis
     if (mkdir(dir, 0700) && errno != EEXIST) { printf("bad-op mkdir %s\n", strerror(errno)); free(gcopy); return; }
     for (i = 0; i < nn; i++) {
         if (in_list(bad, nbad, names[i])) continue;
-        snprintf(a, sizeof(a), "%s/%s.so", stub_dir, names[i]);
+        /* a module named in nohook= is the variant built without module_post_init */
+        snprintf(a, sizeof(a), "%s/%s%s.so", stub_dir, names[i], in_list(nohook, nnohook, names[i]) ? ".nh" : "");
         snprintf(b, sizeof(b), "%s/%s.so", dir, names[i]);
         if (access(a, R_OK)) { printf("bad-op no-stub %s\n", names[i]); goto cleanup; }
         if (symlink(a, b) && errno != EEXIST) { printf("bad-op symlink %s\n", strerror(errno)); goto cleanup; }
@@ -230,8 +231,8 @@ static void run_case(char **lines, int n)
     int li;
     for (li = 0; li < n; li++) {
         char *line = lines[li], *fv[16];
-        char *bad[MAXN], **lists[8], *lbuf[8][MAXN];
-        int nbad = 0, list_n[8], nlists = 0, nf, i, okay = 1;
+        char *bad[MAXN], *nohook[MAXN], **lists[8], *lbuf[8][MAXN];
+        int nbad = 0, nnohook = 0, list_n[8], nlists = 0, nf, i, okay = 1;
         char *g = NULL;
 
         if (!strncmp(line, "case ", 5)) { printf("%s\n", line); continue; }
@@ -240,6 +241,7 @@ static void run_case(char **lines, int n)
         g = fv[1];
         for (i = 2; i < nf; i++) {
             if (!strncmp(fv[i], "bad=", 4)) nbad = split_list(fv[i] + 4, bad, MAXN);
+            else if (!strncmp(fv[i], "nohook=", 7)) nnohook = split_list(fv[i] + 7, nohook, MAXN);
             else if (!strncmp(fv[i], "list=", 5) && nlists < 8) {
                 list_n[nlists] = split_list(fv[i] + 5, lbuf[nlists], MAXN);
                 lists[nlists] = lbuf[nlists];
@@ -247,7 +249,7 @@ static void run_case(char **lines, int n)
             } else okay = 0;
         }
         if (!okay || !stub_dir) { printf("bad-op\n"); continue; }
-        run_graph(g, bad, nbad, lists, list_n, nlists);
+        run_graph(g, bad, nbad, nohook, nnohook, lists, list_n, nlists);
     }
 }
 
